@@ -210,8 +210,9 @@ PROPS["C17"] = {
     "lean_modules": ["Stef.Props.C17"],
     "harness": [{"bin": "h_otlp", "args": ["metrics"]}],
     "rule": ("cases = generated pmetric.Metrics batches (pools of 1-3 resources, 1-3 scopes, 1-4 metric identities of the five types, "
-             "combined with repetition and interleaving; attributes of every AnyValue kind with nested arrays and maps; flagged points; "
-             "per-point bounds; exemplars; float classes NaN payloads, inf, subnormal, max), converted by go/pdata/metrics in all four "
+             "combined with repetition and interleaving; attributes of every AnyValue kind with nested arrays and maps of 0-4 entries, "
+             "growing re-used attribute lists; flagged points; per-point bounds incl. pairs differing only in a NaN or the sign of a zero; "
+             "exemplars; float classes NaN payloads, -0.0, inf, subnormal, max), converted by go/pdata/metrics in all four "
              "combinations (unsorted|sorted writer x unsorted|sorted reader) and compared as multisets of data points by the harness's own "
              "flattening; a clean stream (no known trigger; any failure is a fresh violation) plus one stream per known trigger class; "
              "a case is non-trivial when it has at least two data points, a metric with two or more points (record carry-over) and a "
@@ -228,11 +229,11 @@ PROPS["C17"] = {
                     "modernc.org/b trees with a consistent comparator behave as sorted association lists"],
 }
 PROPS["C17"]["level_text"] = (
-    "Theorems over the converter models (Stef/Props/C17.lean): record count of the unsorted converter (general) and its failure for the "
-    "sorting one (witness), AnyValue conversion round trip (false as written: nested-map witness; partial for maps of at most one entry; "
-    "full for the fixed conversion), round trip of flattened data points through the unsorted converters for every clean batch (general, "
-    "by induction over the trees with the writer's re-used record as state); the sorted round trip is covered by correspondence and "
-    "the oracle only; the model is tied to go/pdata by op-for-op differential runs of all four converter combinations; the property oracle "
+    "Theorems over the converter models (Stef/Props/C17.lean): record count of the unsorted converter (general), of the sorting one "
+    "(general: all points but value-less number points; witness that this is not all points), AnyValue conversion round trip at full "
+    "strength (every value, any re-used destination), round trip of flattened data points through the unsorted converters for every clean "
+    "batch (general, by induction over the trees with the writer's re-used record as state; `clean` excludes only the recorded findings); "
+    "the sorted round trip is covered by correspondence and the oracle only; the model is tied to go/pdata by op-for-op differential runs of all four converter combinations; the property oracle "
     "(own multiset flattening) runs on a trigger-free stream and on one stream per recorded finding.")
 
 PROPS["C18"] = {
@@ -252,9 +253,9 @@ PROPS["C18"] = {
     "assumptions": ["sort.SliceStable with a consistent order is the stable sort", "pcommon.Map keys are distinct"],
 }
 PROPS["C18"]["level_text"] = (
-    "Theorems over the traces converter model (Stef/Props/C18.lean): one record per span, content of every record (ids as injective hex "
-    "text), the sorting mode writes a permutation of the spans; tied to go/pdata/traces by op-for-op differential runs in both modes.")
-
+    "Theorems over the traces converter model (Stef/Props/C18.lean): one record per span (every batch, both modes), content of every "
+    "record at full strength (every batch; ids as injective hex text), the sorting mode writes a permutation of the spans when it only "
+    "merges indistinguishable resources/scopes (witnesses for the dropped-count merge and the CmpVal panic); tied to go/pdata/traces by op-for-op differential runs in both modes.")
 
 
 HOOK_COMMITS = ["dfe47e0", "f85f827"]
